@@ -248,6 +248,7 @@ type hgen struct {
 	stateful map[string]bool
 	decls    map[*types.Func]*ast.FuncDecl
 	externs  map[string]bool   // directive extern:pkg.F: a function of another package as a function argument
+	pkgfns   map[string]bool   // directive pkgfn:f: a function of the package itself as a function argument (fn_heap_ctor.go)
 	normText map[string]string // the functions that were normalised before translation (fn_heap_norm.go): their text
 	pointedInto map[string]bool // "S.F": slice fields of cells into whose elements pointers are taken (fn_heap_eptr.go)
 	tx          *htext          // the text extension (directive std:), nil otherwise (fn_heap_text.go)
@@ -457,6 +458,7 @@ func fnHeapGenerate(f *ast.File, specs []string) (text string, lostMsgs []string
 			g.stateful[strings.TrimPrefix(sp, "stateful:")] = true
 		case strings.HasPrefix(sp, "extern:"):
 			g.externs[strings.TrimPrefix(sp, "extern:")] = true
+		case hPkgFnDirective(g, sp):
 		case g.textDirective(sp):
 		case strings.Contains(sp, ":"):
 			lostMsgs = append(lostMsgs, "fn "+sp+" lost: directive not supported by the heap backend")
